@@ -178,7 +178,14 @@ def finish(prop, tier, seed, results, meta, wall, verbose):
     known_hits = []
     lines = []
     for r in vio:
-        for k, v in enumerate(r["violations"]):
+        # one report per distinct failing goal, at most 4 per obligation
+        seen_lab = set()
+        uniq = []
+        for v in r["violations"]:
+            if v["label"] not in seen_lab:
+                seen_lab.add(v["label"])
+                uniq.append(v)
+        for k, v in enumerate(uniq[:4]):
             text = _match_known(known, prop, r["key"], v["label"])
             if text is not None:
                 known_hits.append((r["name"], v["label"], text))
